@@ -6,6 +6,7 @@
    (x509 chain / name / validity, signature under the leaf key, Finished record opens, ...). *)
 From Coq Require Import List Bool NArith.
 From DtlsV Require Import Hs.C03Auth Hs.C03AuthSound Hs.C04Transcript Hs.C04TranscriptSound.
+From DtlsV Require Import Hs.C03Time Hs.C03TimeSound.
 Import ListNotations.
 Open Scope N_scope.
 
@@ -336,3 +337,49 @@ Example C03_example_cert_without_cv_waits :
   server12 (mk_scfg RequireAnyClientCert false false)
            (mk_cview SCert true true true false true true true true true true true true true true true true) = Wait.
 Proof. reflexivity. Qed.
+
+(* ---- acceptance over time (Hs/C03Time.v): successive handshakes of one process *)
+Theorem C03_acceptance_is_memoryless : forall h r, accept_after h r = accept_after [] r.
+Proof. exact acceptance_is_memoryless. Qed.
+Print Assumptions C03_acceptance_is_memoryless.
+
+Theorem C03_accept_after_any_history_valid_now :
+  forall h r, accept_after h r = true -> verifies (tp_side (rq_pol r)) = true ->
+  (forall w, In w (tc_chain (rq_cred r)) -> (w_nb w <= rq_now r /\ rq_now r <= w_na w)%N) /\
+  (w_nb (tc_root_win (rq_cred r)) <= rq_now r /\ rq_now r <= w_na (tc_root_win (rq_cred r)))%N /\
+  In (tc_root (rq_cred r)) (tp_pool (rq_pol r)) /\
+  name_valid (rq_cred r) (tp_side (rq_pol r)) = true.
+Proof. exact accept_valid_now. Qed.
+Print Assumptions C03_accept_after_any_history_valid_now.
+
+Theorem C03_outside_window_refused : forall h r w, verifies (tp_side (rq_pol r)) = true ->
+  In w (tc_root_win (rq_cred r) :: tc_chain (rq_cred r)) -> (rq_now r < w_nb w \/ w_na w < rq_now r)%N ->
+  accept_after h r = false.
+Proof. exact outside_window_refused. Qed.
+Print Assumptions C03_outside_window_refused.
+
+Theorem C03_root_absent_refused : forall h r, verifies (tp_side (rq_pol r)) = true ->
+  ~ In (tc_root (rq_cred r)) (tp_pool (rq_pol r)) -> accept_after h r = false.
+Proof. exact root_absent_refused. Qed.
+Print Assumptions C03_root_absent_refused.
+
+Theorem C03_cache_faithful_iff_key_decides : forall (K : Type) (key : treq -> K) (keq : K -> K -> bool),
+  (forall a b, keq (key a) (key b) = true -> x509_ok a = x509_ok b) ->
+  forall h r, caccept_after key keq h r = accept r.
+Proof. exact (@cache_faithful). Qed.
+Print Assumptions C03_cache_faithful_iff_key_decides.
+
+Theorem C03_cache_without_time_refuted : forall (K : Type) (key : treq -> K) (keq : K -> K -> bool),
+  (forall k, keq k k = true) -> (forall r now, key (at_time r now) = key r) ->
+  exists h r, caccept_after key keq h r = true /\ accept r = false /\ accept_after h r = false /\
+              verifies (tp_side (rq_pol r)) = true /\ x509_ok r = false /\
+              (exists w, In w (tc_chain (rq_cred r)) /\ (w_na w < rq_now r)%N).
+Proof. exact cache_without_time_refuted. Qed.
+Print Assumptions C03_cache_without_time_refuted.
+
+Theorem C03_cache_without_pool_refuted : forall (K : Type) (key : treq -> K) (keq : K -> K -> bool),
+  (forall k, keq k k = true) -> (forall r pool, key (with_pool r pool) = key r) ->
+  exists h r, caccept_after key keq h r = true /\ accept r = false /\ accept_after h r = false /\
+              verifies (tp_side (rq_pol r)) = true /\ ~ In (tc_root (rq_cred r)) (tp_pool (rq_pol r)).
+Proof. exact cache_without_pool_refuted. Qed.
+Print Assumptions C03_cache_without_pool_refuted.
